@@ -616,3 +616,166 @@ pub fn emit_interleaved(groups: Vec<Vec<String>>, emit: &mut dyn FnMut(String)) 
         emit(l);
     }
 }
+
+// ------------------------------------------------------------------------------------ schedule classes
+/// one class of FRI schedule: folding `n`, remainder max degree `r`, blowup 2^logb, trace length 2^logt, with
+/// `layers` layers and `t` remainder coefficients (all verified against the reference loop)
+#[derive(Clone, Copy, Debug)]
+pub struct Sched {
+    pub n: usize,
+    pub r: usize,
+    pub logb: u32,
+    pub logt: u32,
+    pub layers: usize,
+    pub t: usize,
+}
+
+/// Every class the code distinguishes, by construction (HARDENING.md 1/2): for each folding factor, 0..=3 layers
+/// (3 = the maximum that fits), remainder lengths t shorter than / equal to / longer than the folding factor
+/// (1, 2, N/2, N, 2N, 4N), the folded bound t equal to remainder_max_degree+1 and below it (r+1 = 2t, and r = 255
+/// for zero layers), blowup 2 and 8 — restricted to domains of at most 2^max_logn points.
+pub fn schedule_classes(max_logn: u32) -> Vec<Sched> {
+    let mut out: Vec<Sched> = vec![];
+    for n in [2usize, 4, 8, 16] {
+        for layers in 0..=3usize {
+            let mut ts = vec![1usize, 2, n / 2, n, 2 * n, 4 * n];
+            ts.sort();
+            ts.dedup();
+            for t in ts {
+                for logb in [1u32, 3] {
+                    let trace = t * n.pow(layers as u32);
+                    let logt = trace.trailing_zeros();
+                    if logt + logb > max_logn {
+                        continue;
+                    }
+                    // remainder_max_degree + 1 relative to the folded bound t
+                    let mut rs = vec![t - 1, 2 * t - 1];
+                    if layers == 0 {
+                        rs.push(255);
+                    }
+                    for r in rs {
+                        if r > 255 {
+                            continue;
+                        }
+                        let blowup = 1usize << logb;
+                        let size = trace * blowup;
+                        if ref_num_layers(blowup, n, r, size) != layers {
+                            continue;
+                        }
+                        let mut d = size;
+                        for _ in 0..layers {
+                            d /= n;
+                        }
+                        if d / blowup != t {
+                            continue;
+                        }
+                        out.push(Sched { n, r, logb, logt, layers, t });
+                    }
+                }
+            }
+        }
+    }
+    out
+}
+
+pub const POLY_KINDS: [&str; 12] =
+    ["zero", "const", "full", "xtop", "xn", "xn1", "x1", "half", "slice0", "maxval", "lowfold", "rand"];
+
+/// structured / degenerate polynomials with at most `t` coefficients (HARDENING.md 3): zero, constant, degree
+/// exactly the bound, monomials x^(t-1), x^N, x^(N-1), x, zero upper half (the remainder has zero high
+/// coefficients), zero first interleaved slice, all coefficients p-1, and a polynomial whose first folding with
+/// the given α cancels the top coefficient of the folded polynomial
+pub fn structured_poly(of: &OF, kind: &str, t: usize, n: usize, alpha: O, rng: &mut Rng) -> Vec<O> {
+    let mut c = vec![of.zero(); t];
+    let mono = |c: &mut Vec<O>, k: usize| {
+        if k < c.len() {
+            c[k] = of.one();
+        } else {
+            let l = c.len();
+            c[l - 1] = of.one();
+        }
+    };
+    match kind {
+        "zero" => {},
+        "const" => c[0] = of.rand(rng),
+        "xtop" => mono(&mut c, t - 1),
+        "xn" => mono(&mut c, n),
+        "xn1" => mono(&mut c, n - 1),
+        "x1" => mono(&mut c, 1),
+        "half" => {
+            for x in c.iter_mut().take((t / 2).max(1)) {
+                *x = of.rand(rng);
+            }
+        },
+        "slice0" => {
+            for (i, x) in c.iter_mut().enumerate() {
+                if i % n != 0 {
+                    *x = of.rand(rng);
+                }
+            }
+        },
+        "maxval" => {
+            for x in c.iter_mut() {
+                *x = O(of.m - 1, if of.ext { of.m - 1 } else { 0 });
+            }
+        },
+        "lowfold" => {
+            // top coefficient of the folded polynomial: Σ_k α^k c[t-n+k] = 0 by the choice of c[t-n]
+            for x in c.iter_mut() {
+                *x = of.rand(rng);
+            }
+            if t >= n {
+                let mut acc = of.zero();
+                let mut ap = alpha;
+                for k in 1..n {
+                    acc = of.add(acc, of.mul(ap, c[t - n + k]));
+                    ap = of.mul(ap, alpha);
+                }
+                c[t - n] = of.sub(of.zero(), acc);
+            }
+        },
+        "full" => {
+            for x in c.iter_mut() {
+                *x = of.rand(rng);
+            }
+            if c[t - 1] == of.zero() {
+                c[t - 1] = of.one();
+            }
+        },
+        _ => {
+            for x in c.iter_mut() {
+                *x = of.rand(rng);
+            }
+        },
+    }
+    c
+}
+
+pub const QUERY_KINDS: [&str; 8] = ["same", "allcollide", "all", "row", "edge", "dups", "rand", "one"];
+
+/// structured query lists (HARDENING.md 3): all equal, all colliding after `layers` foldings (one coset of the
+/// last domain), all positions (maximal distinct), one full row, the edges, duplicates, random, a single one
+pub fn structured_positions(kind: &str, size: usize, n: usize, layers: usize, rng: &mut Rng) -> Vec<usize> {
+    let p = rng.below(size as u64) as usize;
+    match kind {
+        "same" => vec![p; 5],
+        "allcollide" => {
+            let mut last = size;
+            for _ in 0..layers {
+                last /= n;
+            }
+            let last = last.max(1);
+            let cnt = (size / last).min(64);
+            (0..cnt).map(|j| (p % last) + j * last).collect()
+        },
+        "all" => (0..size.min(256)).collect(),
+        "row" => {
+            let m = (size / n).max(1);
+            (0..n).map(|j| (p % m + j * m) % size).collect()
+        },
+        "edge" => vec![0, size - 1, size / 2, (size / 2).saturating_sub(1), 0, size - 1],
+        "dups" => (0..8).map(|i| (p + (i % 3)) % size).collect(),
+        "one" => vec![p],
+        _ => (0..6).map(|_| rng.below(size as u64) as usize).collect(),
+    }
+}
